@@ -22,6 +22,7 @@ Provides classes for generating and analyzing complex climate networks.
 
 #  Import NumPy for the array object and fast numerics
 import numpy as np
+from scipy.stats import rankdata
 
 #  Import cnTsonisClimateNetwork for TsonisClimateNetwork class
 from .tsonis import TsonisClimateNetwork
@@ -116,7 +117,9 @@ class SpearmanClimateNetwork(TsonisClimateNetwork):
         :return: the rank time series.
         """
         #  Obtain rank time series
-        rank_time_series = anomaly.argsort(axis=0).argsort(axis=0)
+        #  (average ranks for tied values, as Spearman's Rho is defined; the
+        #  order of tied values in an argsort is arbitrary)
+        rank_time_series = rankdata(anomaly, axis=0)
 
         return rank_time_series
 
